@@ -115,9 +115,10 @@ Section Codec.
   Variable enc : envelope -> N.
   Variable dec : N -> option envelope.
   Variable san : N -> N.
-  (** assumed of encoding/json on messageEnvelope (exercised by the correspondence run, not proved):
-      Unmarshal (Marshal e) gives e with its strings sanitised; sanitising never yields or changes "" *)
-  Hypothesis dec_enc : forall e, dec (enc e) = Some (san_env san e).
+  (** assumed of encoding/json on the envelopes it is used on (exercised by the correspondence
+      run, not proved): Unmarshal (Marshal e) gives e with its strings sanitised; sanitising
+      never yields or changes "" *)
+  Definition codec_ok_on (e : envelope) : Prop := dec (enc e) = Some (san_env san e).
   Hypothesis san_zero : forall s, san s = 0 <-> s = 0.
 
   Lemma wrap_some t m p : wrap enc t m = Some p -> t <> 0 /\ p = enc (mk_env t m).
@@ -127,20 +128,20 @@ Section Codec.
   Qed.
 
   (** wrap -> unwrap restores the topic and the message, up to what JSON does to strings *)
-  Lemma unwrap_wrap t m p em :
+  Lemma unwrap_wrap t m p em : codec_ok_on (mk_env t m) ->
     wrap enc t m = Some p -> payload em = p -> unwrap dec em = Some (san t, san_msg san m).
   Proof.
-    intros Hw Hp. apply wrap_some in Hw as [Ht ->]. unfold unwrap. rewrite Hp, dec_enc.
+    intros Hc Hw Hp. apply wrap_some in Hw as [Ht ->]. unfold unwrap. rewrite Hp, Hc.
     unfold env_valid, san_env. simpl.
     destruct (san t =? 0) eqn:E; [|reflexivity].
     apply N.eqb_eq in E. apply (proj1 (san_zero t)) in E. contradiction.
   Qed.
 
-  Lemma unwrap_wrap_exact t m p em :
+  Lemma unwrap_wrap_exact t m p em : codec_ok_on (mk_env t m) ->
     san t = t -> wf_msg m -> san_fixes_msg san m ->
     wrap enc t m = Some p -> payload em = p -> unwrap dec em = Some (t, m).
   Proof.
-    intros Ht Hwf Hfix Hw Hp. rewrite (unwrap_wrap t m p em Hw Hp), Ht, san_msg_id; auto.
+    intros Hc Ht Hwf Hfix Hw Hp. rewrite (unwrap_wrap t m p em Hc Hw Hp), Ht, san_msg_id; auto.
   Qed.
 
   (** an empty destination topic cannot be wrapped; anything else can *)
@@ -171,30 +172,32 @@ Section Codec.
 
   (** everything published through the decorator unwraps to (topic, message) *)
   Lemma fpub_unwraps dflt cfg t ms ft ps :
+    (forall m, In m ms -> codec_ok_on (mk_env t m)) ->
     fpub_publish enc dflt cfg t ms = Some (ft, ps) ->
     ft = eff_topic dflt cfg
     /\ Forall2 (fun m p => forall em, payload em = p -> unwrap dec em = Some (san t, san_msg san m)) ms ps.
   Proof.
-    rewrite fpub_publish_spec.
+    intros Hc. rewrite fpub_publish_spec.
     destruct ((t =? 0) && negb match ms with [] => true | _ => false end) eqn:E; [discriminate|].
     intros H. inversion H; subst. split; [reflexivity|].
     destruct ms as [|m0 ms0]; [constructor|].
     assert (Ht : (t =? 0) = false) by (destruct (t =? 0); [discriminate | reflexivity]).
-    clear E H. generalize (m0 :: ms0). intros l. induction l as [|m l IH]; simpl; constructor; [|exact IH].
-    intros em Hp. eapply unwrap_wrap; [|exact Hp].
-    unfold wrap, env_valid. simpl. now rewrite Ht.
+    clear E H. revert Hc. generalize (m0 :: ms0). intros l. induction l as [|m l IH]; intros Hc; simpl; constructor.
+    - intros em Hp. eapply unwrap_wrap; [apply Hc; now left| |exact Hp].
+      unfold wrap, env_valid. simpl. now rewrite Ht.
+    - apply IH. intros m' Hin. apply Hc. now right.
   Qed.
 
   (** a string that JSON alters is not restored: the relayed copy differs from what was published *)
-  Lemma non_utf8_not_restored s : san s <> s ->
+  Lemma non_utf8_not_restored s : san s <> s -> (forall e, codec_ok_on e) ->
     exists t m p, wrap enc t m = Some p
                   /\ forall em, payload em = p -> unwrap dec em <> Some (t, m).
   Proof.
-    intros Hs. assert (Hs0 : s <> 0).
+    intros Hs Hc. assert (Hs0 : s <> 0).
     { intros ->. apply Hs. now apply san_zero. }
     exists s, (Msg s 0 None), (enc (mk_env s (Msg s 0 None))). split.
     - unfold wrap, env_valid. simpl. destruct (s =? 0) eqn:E; [apply N.eqb_eq in E; contradiction | reflexivity].
-    - intros em Hp. erewrite unwrap_wrap; [| |exact Hp].
+    - intros em Hp. erewrite unwrap_wrap; [|apply Hc| |exact Hp].
       + intros H. injection H as H1 _. exact (Hs H1).
       + unfold wrap, env_valid. simpl. destruct (s =? 0) eqn:E; [apply N.eqb_eq in E; contradiction | reflexivity].
   Qed.
@@ -281,6 +284,19 @@ Section Run.
   Lemma run_final c i : fst (run c i) = if should_ack c i then Acked else Nacked.
   Proof. unfold should_ack. cases c i; reflexivity. Qed.
 
+  Lemma run_ack_iff c i :
+    (fst (run c i) = Acked <-> should_ack c i = true)
+    /\ (fst (run c i) = Nacked <-> should_ack c i = false).
+  Proof. rewrite run_final. destruct (should_ack c i); split; split; congruence. Qed.
+
+  (** the destination was called and did not accept: Nack *)
+  Lemma run_nack_on_failure c i :
+    source_of c i <> None -> i_pb i <> PubAccept -> fst (run c i) = Nacked.
+  Proof.
+    intros Hs Hp. rewrite run_final. unfold should_ack.
+    destruct (source_of c i); [|congruence]. destruct (i_pb i); congruence.
+  Qed.
+
   (** the Ack is the last event and comes after the destination's successful return *)
   Lemma run_ack_after_accept c i : ack_after_accept (snd (run c i)) false = true.
   Proof. cases c i; reflexivity. Qed.
@@ -288,6 +304,16 @@ Section Run.
   Lemma run_accepted c i : source_of c i <> None ->
     accepted (snd (run c i)) = match i_pb i with PubAccept => true | _ => false end.
   Proof. cases c i; intros H; try reflexivity; exfalso; now apply H. Qed.
+
+  (** acked after a relay: the destination's successful return is in the trace, before the Ack *)
+  Lemma run_acked_was_accepted c i :
+    source_of c i <> None -> fst (run c i) = Acked ->
+    accepted (snd (run c i)) = true /\ ack_after_accept (snd (run c i)) false = true.
+  Proof.
+    intros Hs Ha. split; [|apply run_ack_after_accept]. rewrite run_accepted by assumption.
+    rewrite run_final in Ha. unfold should_ack in Ha.
+    destruct (source_of c i); [|congruence]. destruct (i_pb i); congruence.
+  Qed.
 
   Lemma run_delay_ok c i : delay_ok c (snd (run c i)) = true.
   Proof.
@@ -444,4 +470,57 @@ Proof.
   unfold fanout_deliver. destruct closed; simpl; [split; [reflexivity | constructor]|].
   split; [apply repeat_length|]. apply Forall_forall. intros m' Hin.
   apply repeat_spec in Hin. subst m'. repeat split.
+Qed.
+
+(** ** compositions *)
+Lemma Forall2_weaken {A B} (R1 R2 : A -> B -> Prop) :
+  (forall a b, R1 a b -> R2 a b) -> forall l1 l2, Forall2 R1 l1 l2 -> Forall2 R2 l1 l2.
+Proof. intros H l1 l2 HF. induction HF; constructor; auto. Qed.
+
+Section EndToEnd.
+  Variable enc : envelope -> N.
+  Variable dec : N -> option envelope.
+  Variable san : N -> N.
+  Variable atoi : N -> option Z.
+  Variable itoa : Z -> N.
+  Variable rk : N.
+  Hypothesis san_zero : forall s, san s = 0 <-> s = 0.
+
+  (** Publisher.Publish(t, ms...) followed by the Forwarder consuming each enveloping message:
+      every message goes to [t] (as JSON spells it), once, and is acked iff the destination took it;
+      when JSON leaves the strings alone the relayed copy IS the published message *)
+  Lemma forward_end_to_end dflt cfg t ms ft ps ab :
+    (forall m, In m ms -> codec_ok_on enc dec san (mk_env t m)) ->
+    fpub_publish enc dflt cfg t ms = Some (ft, ps) ->
+    ft = eff_topic dflt cfg
+    /\ Forall2 (fun m p => forall src em cd pb, payload em = p ->
+         let r := run dec atoi itoa rk (CForwarder ab) (Inp src em cd pb) in
+         pubs (snd r) = [(san t, [san_msg san m], Unsettled)]
+         /\ (fst r = Acked <-> pb = PubAccept)
+         /\ (san t = t -> wf_msg m -> san_fixes_msg san m -> pubs (snd r) = [(t, [m], Unsettled)])) ms ps.
+  Proof.
+    intros Hc H. destruct (fpub_unwraps enc dec san san_zero dflt cfg t ms ft ps Hc H) as [Hft HF].
+    split; [exact Hft|]. eapply Forall2_weaken; [|exact HF]. clear Hc H HF. intros m p Hu src em cd pb Hp.
+    specialize (Hu em Hp). cbv zeta.
+    assert (Hpubs : pubs (snd (run dec atoi itoa rk (CForwarder ab) (Inp src em cd pb))) = [(san t, [san_msg san m], Unsettled)]).
+    { now apply forward_valid. }
+    split; [exact Hpubs|]. split.
+    - rewrite run_final. unfold should_ack. simpl. rewrite Hu. simpl.
+      destruct pb; split; intros; congruence.
+    - intros Ht Hwf Hfix. rewrite Hpubs, Ht, san_msg_id by assumption. reflexivity.
+  Qed.
+End EndToEnd.
+
+(** the fan-out model passes its acceptor *)
+Lemma fanout_model_accepted src m n closed cd :
+  wf_msg m ->
+  fanout_monitor src m n closed (map (pair src) (fanout_deliver n closed m))
+    (if closed then [] else [Unsettled])
+    (fst (run (fun _ => None) (fun _ => None) (fun _ => 0) 0 CFanOut (Inp src m cd (fanout_pb closed)))) = true.
+Proof.
+  intros Hwf. unfold fanout_monitor, fanout_deliver. destruct closed; [reflexivity|].
+  rewrite map_length, repeat_length, Nat.eqb_refl. simpl.
+  rewrite !andb_true_r. apply forallb_forall. intros [t m'] Hin.
+  apply in_map_iff in Hin as (x & Hx & Hin). apply repeat_spec in Hin. subst x. inversion Hx; subst.
+  simpl. rewrite !N.eqb_refl. simpl. now apply meta_eqb_refl.
 Qed.
